@@ -489,6 +489,26 @@ pub fn is_heavy(prog: &Program, n: usize, budget: u64) -> bool {
     false
 }
 
+/// `is_heavy` over a whole run with the case's own inputs (a program can be light for two samples
+/// of constant input and heavy later, when `now` or an input opens a branch)
+pub fn is_heavy_run(prog: &Program, n: usize, budget: u64, input: &dyn Fn(usize, usize) -> f64) -> bool {
+    let Ok(mut it) = Interp::new(prog) else { return false };
+    it.max_steps = budget;
+    let ich: usize = prog.dsp.params.iter().map(|p| p.ty.words()).sum();
+    let mut inbuf = vec![0.0; ich];
+    for t in 0..n {
+        for (k, v) in inbuf.iter_mut().enumerate() {
+            *v = input(t, k);
+        }
+        match it.tick(&inbuf) {
+            Err(RefError::Steps) => return true,
+            Err(_) => return false,
+            Ok(_) => {}
+        }
+    }
+    false
+}
+
 /// Run `n` samples; returns flattened [sample][channel] outputs and the flags tripped.
 pub fn run(prog: &Program, n: usize, input: &dyn Fn(usize, usize) -> f64) -> Result<(Vec<f64>, BTreeSet<&'static str>), RefError> {
     let mut it = Interp::new(prog)?;
